@@ -361,4 +361,32 @@ theorem grouped_entry_unphased (n : Nat) (recs : List Rec) (hrect : ∀ r ∈ re
     (fun k hk => by rw [hrow]; exact hv k hk) j hjl
   simpa using this
 
+/-! ### text level -/
+
+theorem parseRecs_ok (raws : List RawRec) (h : ∀ r ∈ raws, r.chrom.toInt?.isSome = true) :
+    parseRecs raws = .ok (raws.map (fun r => ⟨(r.chrom.toInt?).getD 0, r.pos, r.id.getD "None", r.calls⟩)) := by
+  induction raws with
+  | nil => rfl
+  | cons r rest ih =>
+    have hr := h r List.mem_cons_self
+    obtain ⟨c, hc⟩ := Option.isSome_iff_exists.mp hr
+    show (do let a ← parseRec r; let tl ← parseRecs rest; pure (a :: tl)) = _
+    rw [ih (fun x hx => h x (List.mem_cons_of_mem _ hx))]
+    simp [parseRec, hc]
+
+theorem parseRecs_err (raws : List RawRec) (h : ∃ r ∈ raws, r.chrom.toInt? = none) :
+    parseRecs raws = .error .value := by
+  induction raws with
+  | nil => obtain ⟨r, hr, _⟩ := h; simp at hr
+  | cons r rest ih =>
+    show (do let a ← parseRec r; let tl ← parseRecs rest; pure (a :: tl)) = _
+    cases hc : r.chrom.toInt? with
+    | none => simp [parseRec, hc]; rfl
+    | some c =>
+      obtain ⟨x, hx, hxn⟩ := h
+      rcases List.mem_cons.mp hx with e | e
+      · subst e; rw [hc] at hxn; simp at hxn
+      · rw [ih ⟨x, e, hxn⟩]
+        simp [parseRec, hc]
+
 end StoreVcf
